@@ -346,6 +346,9 @@ pub fn run_random(rec: &mut Rec, seed: u64, run: u64, nops: usize) {
                 rs = if by_adv {
                     let u = p.users[ui].clone();
                     p.w.exec(&u, &p.adv.clone(), &AdvExecute::Run { script: vec![Atom::Withdraw { x: Uint128::new(sh) }], target: p.vault.to_string() }, &[])
+                } else if direct && r.gen_bool(0.5) {
+                    // a forged cw20 receipt: the caller sends the Receive message itself, naming itself as the sender of shares
+                    p.w.exec(&who, &p.vault.clone(), &forged_receive(&who, sh, &Cw20HookMsg::Withdraw {}), &[])
                 } else if direct {
                     let funds: Vec<cosmwasm_std::Coin> = match &p.asset { A::Native(d) => vec![coin(sh.min(p.w.balance(&who, &p.asset)).max(1), d.clone())], _ => vec![] };
                     p.w.exec(&who, &p.vault.clone(), &ExecuteMsg::Withdraw {}, &funds)
@@ -474,7 +477,17 @@ pub fn run_random(rec: &mut Rec, seed: u64, run: u64, nops: usize) {
             _ => {
                 last_minted = None;
                 let amt = loan_amount(&mut r, bal);
-                let sub = simple_script(&mut r, &p, amt);
+                // through the router the borrower hands over the fees only (the router still holds the loan): half of the
+                // scripts are a single repayment around that figure
+                let sub = match (p.payback(amt), r.gen_bool(0.5)) {
+                    (Some(q), true) => {
+                        let fees = q.payback_amount.u128().saturating_sub(amt);
+                        let x = match r.gen_range(0..8) { 0 => fees.saturating_sub(1), 1 => fees + 1, 2 => fees + gen::amount(&mut r, (amt / 10).max(2)), 3 => q.payback_amount.u128(),
+                            4 => fees.saturating_sub(q.burn_fee.u128()), 5 => fees.saturating_sub(q.protocol_fee.u128()), _ => fees };
+                        vec![Atom::Repay { x: Uint128::new(x) }]
+                    }
+                    _ => simple_script(&mut r, &p, amt),
+                };
                 let payload: Vec<CosmosMsg> = vec![WasmMsg::Execute {
                     contract_addr: p.adv.to_string(),
                     msg: to_json_binary(&AdvExecute::Run { script: sub.clone(), target: p.router.to_string() }).unwrap(),
